@@ -4,7 +4,7 @@
 # prints one line per check, and ALWAYS restores /repo afterwards. Evidence files written during
 # a trial describe a mutated tree: re-run the checks on the clean tree before committing evidence.
 set -u
-patch="$1"; shift
+patch="$(realpath "$1")"; shift
 props=("$@")
 if [ ${#props[@]} -eq 0 ]; then props=(C01 C02 C03 C04 C05 C06 C07 C08 C09 C10 C11 C13 C14 C15 C16); fi
 cd /verif || exit 2
